@@ -254,6 +254,81 @@ static void do_demarshal (const char *hex)
  */
 static char **g_tok; static int g_ntok, g_pos;
 
+static int fixed_size_of (int c)
+{
+  switch (c) { case 'y': return 1; case 'n': case 'q': return 2; case 'b': case 'i': case 'u': return 4; case 'x': case 't': case 'd': return 8; default: return 0; }
+}
+
+/* consume basic tokens of type et up to "]" into buf (native layout); returns the count or -1 */
+static int collect_fixed (int et, int sz, unsigned char *buf)
+{
+  int n = 0;
+  while (g_pos < g_ntok)
+    {
+      char *t = g_tok[g_pos++];
+      if (!strcmp (t, "]")) return n;
+      if (t[0] != et) return -1;
+      if (sz == 1) { unsigned char v = (unsigned char) strtoul (t + 1, NULL, 10); memcpy (buf + n, &v, 1); }
+      else if (sz == 2) { dbus_uint16_t v = (dbus_uint16_t) strtoul (t + 1, NULL, 10); memcpy (buf + 2 * n, &v, 2); }
+      else if (sz == 4) { dbus_uint32_t v = (dbus_uint32_t) strtoul (t + 1, NULL, 10); memcpy (buf + 4 * n, &v, 4); }
+      else { dbus_uint64_t v = (dbus_uint64_t) strtoull (t + 1, NULL, 10); memcpy (buf + 8 * n, &v, 8); }
+      n++;
+    }
+  return -1;
+}
+
+/* buildargs: every top-level argument through dbus_message_append_args (the varargs entry point), one call per argument:
+ * basic values, arrays of fixed-size elements (type, &ptr, n) and arrays of string-like elements (&strv, n) */
+static dbus_bool_t append_args_tokens (DBusMessage *m)
+{
+  while (g_pos < g_ntok)
+    {
+      char *t = g_tok[g_pos++];
+      switch (t[0])
+        {
+        case 'y': { unsigned char v = (unsigned char) strtoul (t + 1, NULL, 10); if (!dbus_message_append_args (m, DBUS_TYPE_BYTE, &v, DBUS_TYPE_INVALID)) return FALSE; break; }
+        case 'b': { dbus_bool_t v = (dbus_bool_t) strtoul (t + 1, NULL, 10); if (!dbus_message_append_args (m, DBUS_TYPE_BOOLEAN, &v, DBUS_TYPE_INVALID)) return FALSE; break; }
+        case 'n': case 'q': { dbus_uint16_t v = (dbus_uint16_t) strtoul (t + 1, NULL, 10); if (!dbus_message_append_args (m, (int) t[0], &v, DBUS_TYPE_INVALID)) return FALSE; break; }
+        case 'i': case 'u': { dbus_uint32_t v = (dbus_uint32_t) strtoul (t + 1, NULL, 10); if (!dbus_message_append_args (m, (int) t[0], &v, DBUS_TYPE_INVALID)) return FALSE; break; }
+        case 'x': case 't': case 'd': { dbus_uint64_t v = (dbus_uint64_t) strtoull (t + 1, NULL, 10); if (!dbus_message_append_args (m, (int) t[0], &v, DBUS_TYPE_INVALID)) return FALSE; break; }
+        case 's': case 'o': case 'g': { int n; unsigned char *b = unhex (t + 1, &n); const char *p = (const char *) b; dbus_bool_t ok = dbus_message_append_args (m, (int) t[0], &p, DBUS_TYPE_INVALID); free (b); if (!ok) return FALSE; break; }
+        case 'A':
+          {
+            int et = t[1]; int sz = fixed_size_of (et);
+            if (t[2] != 0) return FALSE;
+            if (sz > 0)
+              {
+                unsigned char *buf = malloc (8 * (size_t) (g_ntok + 1)); const void *ptr = buf; dbus_bool_t ok;
+                int n = collect_fixed (et, sz, buf);
+                if (n < 0) { free (buf); return FALSE; }
+                ok = dbus_message_append_args (m, DBUS_TYPE_ARRAY, et, &ptr, n, DBUS_TYPE_INVALID);
+                free (buf);
+                if (!ok) return FALSE;
+              }
+            else if (et == 's' || et == 'o' || et == 'g')
+              {
+                char **strv = calloc ((size_t) g_ntok + 1, sizeof (char *)); const char **p = (const char **) strv; int n = 0, k, len; dbus_bool_t ok = TRUE;
+                while (g_pos < g_ntok)
+                  {
+                    char *e = g_tok[g_pos++];
+                    if (!strcmp (e, "]")) break;
+                    if (e[0] != et) { ok = FALSE; break; }
+                    strv[n++] = (char *) unhex (e + 1, &len);
+                  }
+                if (ok) ok = dbus_message_append_args (m, DBUS_TYPE_ARRAY, et, &p, n, DBUS_TYPE_INVALID);
+                for (k = 0; k < n; k++) free (strv[k]);
+                free (strv);
+                if (!ok) return FALSE;
+              }
+            else return FALSE;
+            break;
+          }
+        default: return FALSE;
+        }
+    }
+  return TRUE;
+}
+
 static dbus_bool_t append_tokens (DBusMessageIter *it, const char *closer)
 {
   while (g_pos < g_ntok)
@@ -270,6 +345,17 @@ static dbus_bool_t append_tokens (DBusMessageIter *it, const char *closer)
         case 's': case 'o': case 'g': { int n; unsigned char *b = unhex (t + 1, &n); const char *p = (const char *) b; dbus_bool_t ok = dbus_message_iter_append_basic (it, t[0], &p); free (b); if (!ok) return FALSE; break; }
         case 'A': { DBusMessageIter sub; if (!dbus_message_iter_open_container (it, DBUS_TYPE_ARRAY, t + 1, &sub)) return FALSE;
                     if (!append_tokens (&sub, "]")) return FALSE; if (!dbus_message_iter_close_container (it, &sub)) return FALSE; break; }
+        case 'F': { /* array of fixed-size elements through dbus_message_iter_append_fixed_array (all elements in one call) */
+                    DBusMessageIter sub; int et = t[1], n = 0; int sz = fixed_size_of (et); unsigned char *buf; const void *ptr;
+                    if (sz == 0) return FALSE;
+                    buf = malloc (8 * (size_t) (g_ntok + 1));
+                    n = collect_fixed (et, sz, buf);
+                    if (n < 0) { free (buf); return FALSE; }
+                    ptr = buf;
+                    if (!dbus_message_iter_open_container (it, DBUS_TYPE_ARRAY, t + 1, &sub)) { free (buf); return FALSE; }
+                    if (n > 0 && !dbus_message_iter_append_fixed_array (&sub, et, &ptr, n)) { free (buf); return FALSE; }
+                    free (buf);
+                    if (!dbus_message_iter_close_container (it, &sub)) return FALSE; break; }
         case '(': { DBusMessageIter sub; if (!dbus_message_iter_open_container (it, DBUS_TYPE_STRUCT, NULL, &sub)) return FALSE;
                     if (!append_tokens (&sub, ")")) return FALSE; if (!dbus_message_iter_close_container (it, &sub)) return FALSE; break; }
         case '{': { DBusMessageIter sub; if (!dbus_message_iter_open_container (it, DBUS_TYPE_DICT_ENTRY, NULL, &sub)) return FALSE;
@@ -302,7 +388,53 @@ static dbus_bool_t apply_setter (DBusMessage *m, const char *kv)
   return ok;
 }
 
-static void do_build (void)
+/* read the FIRST argument back through dbus_message_get_args (the varargs accessor); printed in dump_iter's format */
+static void dump_first_via_get_args (DBusMessage *m, const char *tok)
+{
+  DBusError e; dbus_error_init (&e);
+  printf (" getargs=");
+  switch (tok[0])
+    {
+    case 'y': { unsigned char v = 0; if (dbus_message_get_args (m, &e, DBUS_TYPE_BYTE, &v, DBUS_TYPE_INVALID)) printf ("y%u", v); else printf ("ERR"); break; }
+    case 'b': { dbus_bool_t v = 0; if (dbus_message_get_args (m, &e, DBUS_TYPE_BOOLEAN, &v, DBUS_TYPE_INVALID)) printf ("b%u", (unsigned) v); else printf ("ERR"); break; }
+    case 'n': case 'q': { dbus_uint16_t v = 0; if (dbus_message_get_args (m, &e, (int) tok[0], &v, DBUS_TYPE_INVALID)) printf ("%c%u", tok[0], (unsigned) v); else printf ("ERR"); break; }
+    case 'i': case 'u': { dbus_uint32_t v = 0; if (dbus_message_get_args (m, &e, (int) tok[0], &v, DBUS_TYPE_INVALID)) printf ("%c%u", tok[0], (unsigned) v); else printf ("ERR"); break; }
+    case 'x': case 't': case 'd': { dbus_uint64_t v = 0; if (dbus_message_get_args (m, &e, (int) tok[0], &v, DBUS_TYPE_INVALID)) printf ("%c%llu", tok[0], (unsigned long long) v); else printf ("ERR"); break; }
+    case 's': case 'o': case 'g': { const char *v = NULL; if (dbus_message_get_args (m, &e, (int) tok[0], &v, DBUS_TYPE_INVALID)) { printf ("%c", tok[0]); puthex ((const unsigned char *) v, (int) strlen (v)); } else printf ("ERR"); break; }
+    case 'A':
+      {
+        int et = tok[1]; int sz = fixed_size_of (et); int n = 0, k;
+        if (sz > 0)
+          {
+            const unsigned char *p = NULL;
+            if (!dbus_message_get_args (m, &e, DBUS_TYPE_ARRAY, et, &p, &n, DBUS_TYPE_INVALID)) { printf ("ERR"); break; }
+            printf ("a[");
+            for (k = 0; k < n; k++)
+              {
+                unsigned long long v = 0;
+                if (sz == 1) v = p[k]; else if (sz == 2) { dbus_uint16_t x; memcpy (&x, p + 2 * k, 2); v = x; }
+                else if (sz == 4) { dbus_uint32_t x; memcpy (&x, p + 4 * k, 4); v = x; } else { dbus_uint64_t x; memcpy (&x, p + 8 * k, 8); v = x; }
+                printf ("%s%c%llu", k ? " " : "", et, v);
+              }
+            printf ("]");
+          }
+        else
+          {
+            char **strv = NULL;
+            if (!dbus_message_get_args (m, &e, DBUS_TYPE_ARRAY, et, &strv, &n, DBUS_TYPE_INVALID)) { printf ("ERR"); break; }
+            printf ("a[");
+            for (k = 0; k < n; k++) { printf ("%s%c", k ? " " : "", et); puthex ((const unsigned char *) strv[k], (int) strlen (strv[k])); }
+            printf ("]");
+            dbus_free_string_array (strv);
+          }
+        break;
+      }
+    default: printf ("-");
+    }
+  dbus_error_free (&e);
+}
+
+static void do_build (int args_mode)
 {
   char *toks[4096]; int n = 0; char *t; DBusMessage *m, *copy; DBusMessageIter it; int type, flags; unsigned long serial; char *setters, *sp, *kv;
   while (n < 4096 && (t = strtok (NULL, " ")) != NULL) toks[n++] = t;
@@ -316,13 +448,21 @@ static void do_build (void)
   for (kv = strtok_r (setters, ",", &sp); kv != NULL; kv = strtok_r (NULL, ",", &sp))
     if (!apply_setter (m, kv)) { printf ("refused-setter %s\n", kv); dbus_message_unref (m); return; }
   g_tok = toks + 4; g_ntok = n - 4; g_pos = 0;
-  dbus_message_iter_init_append (m, &it);
-  if (!append_tokens (&it, NULL)) { printf ("refused-append at token %d\n", g_pos); dbus_message_unref (m); return; }
+  if (args_mode)
+    {
+      if (!append_args_tokens (m)) { printf ("refused-append at token %d\n", g_pos); dbus_message_unref (m); return; }
+    }
+  else
+    {
+      dbus_message_iter_init_append (m, &it);
+      if (!append_tokens (&it, NULL)) { printf ("refused-append at token %d\n", g_pos); dbus_message_unref (m); return; }
+    }
   dbus_message_set_serial (m, (dbus_uint32_t) serial);
   /* read the header through the getters BEFORE anything serialises the message (stale caches must show) */
   printf ("getters="); dump_getters (m);
   printf (" bytes="); put_marshalled (m);
   printf (" dump="); dump_message (m);
+  if (args_mode && n > 4) dump_first_via_get_args (m, toks[4]);
   /* copy: equal message with serial 0 */
   copy = dbus_message_copy (m);
   if (copy == NULL) printf (" copy=OOM");
@@ -409,7 +549,8 @@ int main (void)
       if (line[got - 1] == '\n') line[got - 1] = 0;
       cmd = strtok (line, " ");
       if (cmd == NULL) { printf ("\n"); continue; }
-      if (!strcmp (cmd, "build")) { do_build (); continue; }
+      if (!strcmp (cmd, "build")) { do_build (0); continue; }
+      if (!strcmp (cmd, "buildargs")) { do_build (1); continue; }
       a1 = strtok (NULL, " ");
       if (a1 == NULL) a1 = "-";
       if (!strcmp (cmd, "iface")) do_name (a1, _dbus_validate_interface, dbus_validate_interface);
